@@ -436,7 +436,7 @@ def main():
     focus = sorted(set(f['module'] for f, _ in new)) or None
     probe = probe_search(pid, seed, budget, None, skip)
     if focus and not probe.get('found'):
-        p2 = probe_search(pid, seed + 1, budget * 5, focus, skip)
+        p2 = probe_search(pid, seed + 1, max(budget * 5, 150000), focus, skip)      # only reached when an obligation already failed: worth the seconds
         if p2.get('found'): probe = p2
     kani = None
     if pid == 'C14':
